@@ -64,13 +64,13 @@ class Effects:
         self.roots = step_roots(db)
         self.reach = {}   # (cls, inst) -> (set(nodes), parent map)
         for cls, order, f in self.roots:
-            nodes = db.reachable_from([f.inst])
-            self.reach[(cls, f.inst)] = (nodes, dict(db._last_parent), order)
+            nodes = db.reachable_from([f.node])
+            self.reach[(cls, f.node)] = (nodes, dict(db._last_parent), order)
 
     def actions(self):
         return sorted(set((c, o) for c, o, _f in self.roots))
 
-    def who_reaches(self, pattern_names):
+    def who_reaches(self, pattern_names, pred=None):
         """{(cls, order): [(target node, chain)]} for every action whose step
         body transitively calls one of the given pattern names."""
         db = self.db
@@ -78,7 +78,8 @@ class Effects:
         targets = set()
         for p in pattern_names:
             for r in db.funcs.get(p, ()):
-                targets.add(db.node_of(r))
+                if pred is None or pred(r):
+                    targets.add(db.node_of(r))
         out = {}
         for (cls, inst), (nodes, parent, order) in self.reach.items():
             hit = nodes & targets
@@ -95,10 +96,10 @@ class Effects:
 
 
 def check_orders(cx, db, eff, rule, what, mutators, allowed_orders, why,
-                 allowed_classes=()):
+                 allowed_classes=(), pred=None):
     """Obligation per action class: it reaches `mutators` only if its order is
     allowed (or the class itself is listed)."""
-    hits = eff.who_reaches(mutators)
+    hits = eff.who_reaches(mutators, pred)
     n = 0
     for (cls, order), lst in sorted(hits.items(), key=lambda kv: str(kv[0])):
         ok = (order in allowed_orders) or (cls in allowed_classes)
